@@ -4,6 +4,7 @@ import QmcModel.Rand
 import QmcModel.Interaction
 import QmcModel.Loop
 import QmcModel.Generic
+import QmcModel.Stepper
 open Qmc Qmc.Proto
 
 /-! Line-protocol driver for C04 (generic sampler: loop update, exit distribution, start draw map,
@@ -107,6 +108,22 @@ def step (toks : List String) : String :=
   -- heat-bath table maxima: implementation-side oracle only (stored per-bond maxima vs the maximum
   -- over all 2^k diagonal entries of the user's matrix); nothing to replay
   | "hbtable" :: _ => "-"
+  -- oracle-only case after a cluster / diagonal sub-update of the constant-diagonal-table systems
+  | "clustercheck" :: _ => "-"
+  -- the default measuring methods of `QmcStepper` on the generic sampler: number of measured steps
+  -- and returned energy from t, sampling frequency, beta, offset and the observed n after each
+  -- step (C17's model of `timesteps_measure_with_self`: `measureLoop`, `measureEnergy`)
+  | ["measure", kind, T, f, β, off, nseq, _calls] =>
+    let t := parseNat T
+    let fr : Nat := if kind == "steps" || f == "none" then 1 else parseNat f
+    if measurePanics t fr then "panic" else
+    let ns := parseNats nseq
+    let r := measureLoop (· + 1) (fun a => if a = 0 then 0 else ns.getD (a - 1) 0)
+      (fun (acc : Nat) _ => acc + 1) t fr 0 0
+    let e := match measureEnergy (parseRat β) (parseRat off) r with
+      | some x => showApprox x
+      | none => "nan"
+    s!"{if kind == "steps" then "-" else toString r.acc} {e}"
   | _ => "bad-op"
 
 def main : IO Unit := run step
